@@ -2,7 +2,7 @@
    Only statements here; every proof is [exact <lemma of Proofs/C15*.v>].
    extract_message_size / encode_length / read_ / write_extended_field_value are the definitions
    translated from tcp.py / options.py on every run (coq/Gen); the rest is Model/C15.v. *)
-From Verif Require Import Lib.Py Lib.Tactics Gen.options_ext Gen.tcp_framing Model.C15 Model.C15Sys Proofs.C15 Proofs.C15Gate Proofs.C15Total Proofs.C15Interleave Proofs.C15Compose Proofs.C15Sys.
+From Verif Require Import Lib.Py Lib.Tactics Gen.options_ext Gen.tcp_framing Model.C15 Model.C15Sys Proofs.C15 Proofs.C15Gate Proofs.C15Total Proofs.C15Interleave Proofs.C15Compose Proofs.C15Sys Proofs.C15R6 Proofs.C15R6b.
 Open Scope Z_scope.
 
 (* ---- RFC 8323 section 3.2 length coding *)
@@ -234,6 +234,39 @@ Theorem C15_release_abort_frames : forall c, spool c = [] -> 2 <= my_max_message
 Proof. exact release_frame. Qed.
 Print Assumptions C15_release_abort_frames.
 
+(* ---- histories of the endpoint (round 6) *)
+(* whatever happened before — any requests, any bytes on any connection, in particular the endpoint's OWN Abort after a
+   bad frame, which by itself fails nobody — once connection_lost is reported for a connection, every request that was
+   in the table for it has received a terminal event (final response or NetworkError), none is left, it is out of the pool *)
+Theorem C15_lost_ends_all_pending : forall es s id r, In r (outgoing s) -> r_remote r = id ->
+  let '(s1, x) := sys_run s (es ++ [PLost id]) in
+  terminal id r x /\ (forall q, In q (outgoing s1) -> r_remote q <> id) /\ ~ In id (pool s1).
+Proof. exact lost_ends_all_pending. Qed.
+Print Assumptions C15_lost_ends_all_pending.
+
+(* over every history in which requests are issued under keys not in the table and (t, i) is not issued again: uniqueness
+   of keys is kept; the request (t, i) gets AT MOST ONE terminal event; once it has, it is out of the table; a key that is
+   not in the table gets no event at all (no response after a failure, no second failure) — [step_facts] *)
+Theorem C15_at_most_one_terminal : forall es s t i, uniq s -> fresh_run s es -> existsb (requests t i) es = false ->
+  let '(s1, x) := sys_run s es in
+  uniq s1 /\ (tcnt t i s1 <= tcnt t i s)%nat /\ (tcnt t i s = 0%nat -> cnt (ev_is t i) x = 0%nat) /\
+  (cnt (term_is t i) x <= 1)%nat /\ (cnt (term_is t i) x = 1%nat -> tcnt t i s1 = 0%nat).
+Proof. exact at_most_one_terminal. Qed.
+Print Assumptions C15_at_most_one_terminal.
+
+(* the hypotheses follow from reachability: from an empty table, any history with pairwise distinct request keys
+   (TokenManager.next_token is a counter) keeps the table a dict and issues only fresh keys ... *)
+Theorem C15_fresh_from_distinct : forall es s, uniq s -> distinct_reqs es = true ->
+  (forall t i, existsb (requests t i) es = true -> tcnt t i s = 0%nat) -> fresh_run s es.
+Proof. exact fresh_from_distinct. Qed.
+Print Assumptions C15_fresh_from_distinct.
+(* ... so: at most one terminal event per request, unconditionally over such histories *)
+Theorem C15_at_most_one_terminal_reachable : forall es1 es2 s t i, outgoing s = [] ->
+  distinct_reqs (es1 ++ es2) = true -> existsb (requests t i) es2 = false ->
+  (cnt (term_is t i) (snd (sys_run (fst (sys_run s es1)) es2)) <= 1)%nat.
+Proof. exact at_most_one_terminal_reachable. Qed.
+Print Assumptions C15_at_most_one_terminal_reachable.
+
 (* ---- per message: dispatch, CSM gate, empty, Ping/Pong, Release/Abort *)
 Theorem C15_dispatch_exact : forall c m s, remote_settings c = Some s -> is_signalling (code m) = false -> code m <> 0 ->
   handle_message c m = (c, [if is_response (code m) then Response m else Request m], Continue).
@@ -359,3 +392,11 @@ Example C15_no_response_example :
   pool_send_message ex_conn {| code := 132; token := [9]; opts := [(258, [2]); (12, [])]; payload := [] |}
   = (ex_conn, [Write [17; 132; 9; 192]], true).
 Proof. vm_compute. split; reflexivity. Qed.
+
+(* round 6: own Abort (TKL 9) with a request outstanding fails nobody; the following connection_lost does, once *)
+Example C15_own_abort_then_lost_example :
+  let es := [PRequest 0 [1] false; PData 0 ([9; 69] ++ repeat 0 9); PLost 0] in
+  distinct_reqs es = true /\ outgoing sys0 = [] /\
+  cnt (term_is [1] 0) (snd (sys_run sys0 [PRequest 0 [1] false; PData 0 ([9; 69] ++ repeat 0 9)])) = 0%nat /\
+  cnt (term_is [1] 0) (snd (sys_run sys0 es)) = 1%nat /\ outgoing (fst (sys_run sys0 es)) = [] /\ pool (fst (sys_run sys0 es)) = [1].
+Proof. vm_compute. repeat split; reflexivity. Qed.
